@@ -636,6 +636,14 @@ static void iauth_xquery_config_service(const char *name, const char *type)
     srv->configured = 1;
 }
 
+static void iauth_xquery_services_changed(struct conf_node_base *node);
+
+/** Handles an in-place edit of a single service entry. */
+static void iauth_xquery_service_changed(struct conf_node_base *node)
+{
+    iauth_xquery_services_changed(&node->parent->base);
+}
+
 static void iauth_xquery_services_changed(struct conf_node_base *node)
 {
     struct iauth_xquery_service *srv;
@@ -653,6 +661,12 @@ static void iauth_xquery_services_changed(struct conf_node_base *node)
         /* Mark each named service as configured. */
         for (jj = set_first(&conf.root->contents); jj != NULL; jj = set_next(jj)) {
             struct conf_node_base *base = set_node_data(jj);
+
+            /* The section hook only runs when entries come or go;
+             * watch each entry for changes of its value.
+             */
+            if (!base->hook)
+                base->hook = iauth_xquery_service_changed;
 
             if (base->type == CONF_STRING) {
                 struct conf_node_string *str = set_node_data(jj);
